@@ -652,6 +652,64 @@ func runC13(seed int64, tier string, sc *Script) map[string]any {
 		evals += 2
 		reg.Close()
 	}
+	// tags at the length limit: 128 characters are a tag, 129 are not - the call is refused
+	// before anything is sent, in every operation that takes a reference
+	for _, n := range []int{127, 128, 129, 130, 200} {
+		sc.Case("tag-length")
+		sc.NonTrivial()
+		reg := newFakeRegistry(regProfile{DigestHeaders: true})
+		repo, _ := remote.NewRepository(reg.Host() + "/a/b")
+		repo.PlainHTTP = true
+		mb := []byte(`{"schemaVersion":2,"mediaType":"application/vnd.oci.image.manifest.v1+json","config":{"mediaType":"application/vnd.oci.empty.v1+json","digest":"sha256:44136fa355b3678a1146ad16f7e8649e94fb4fc21fe77e8310c060f61caaff8a","size":2},"layers":[]}`)
+		md := ocispec.Descriptor{MediaType: ocispec.MediaTypeImageManifest, Digest: digest.FromBytes(mb), Size: int64(len(mb))}
+		if err := repo.Push(ctx, md, bytes.NewReader(mb)); err != nil {
+			panic(err)
+		}
+		tag := strings.Repeat("t", n)
+		for _, kind := range []string{"tag", "pushref", "resolve", "fetchref"} {
+			for _, form := range []string{"short", "qualified"} {
+				ref := tag
+				if form == "qualified" {
+					ref = reg.Host() + "/a/b:" + tag
+				}
+				reg.mu.Lock()
+				before := len(reg.log)
+				reg.badReq = nil
+				reg.mu.Unlock()
+				var err error
+				switch kind {
+				case "tag":
+					err = repo.Tag(ctx, md, ref)
+				case "pushref":
+					err = repo.PushReference(ctx, md, bytes.NewReader(mb), ref)
+				case "resolve":
+					_, err = repo.Resolve(ctx, ref)
+				default:
+					var rc io.ReadCloser
+					_, rc, err = repo.FetchReference(ctx, ref)
+					if err == nil {
+						rc.Close()
+					}
+				}
+				reg.mu.Lock()
+				sent := len(reg.log) - before
+				bad := len(reg.badReq)
+				reg.mu.Unlock()
+				ans := "sent"
+				switch {
+				case bad > 0:
+					ans = "request-outside-the-specification"
+				case sent == 0 && errors.Is(err, errdef.ErrInvalidReference):
+					ans = "refused-nothing-sent"
+				case sent == 0:
+					ans = "nothing-sent"
+				}
+				sc.Op(ans, "rm longtag len=%d kind=%s form=%s", n, kind, form)
+				evals++
+			}
+		}
+		reg.Close()
+	}
 	// Read/Seek sequences on blob readers
 	seekCases := 30
 	if tier == "thorough" {
